@@ -164,6 +164,16 @@ def run(chk: Check) -> None:
 
     from .common import cancellation_delivered
     cancellation_delivered(chk, 'FUT-exactly-once', 'futures.create_task.run_task', 'future', 'the coroutine scheduled by create_task')
+    # create_task is what the communicator THREAD calls (through convert_to_comm): the coroutine has to be handed to the loop by a call that may be made from
+    # another thread and wakes the loop up -- run_coroutine_threadsafe / call_soon_threadsafe.  ``loop.create_task`` / ``ensure_future`` / ``call_soon`` from a foreign
+    # thread leave the coroutine unscheduled until something else wakes the loop: the future never ends
+    ctf = prog.func('futures.create_task')
+    THREADSAFE = ('run_coroutine_threadsafe', 'call_soon_threadsafe')
+    UNSAFE = ('create_task', 'ensure_future', 'call_soon', 'call_later', 'call_at')
+    runner = [n_.name for n_ in ctf.node.body if isinstance(n_, (ast.FunctionDef, ast.AsyncFunctionDef))]
+    hand = [c for c in calls_in_func(ctf) if last_name(c) in THREADSAFE + UNSAFE and any(isinstance(x, ast.Name) and x.id in runner for a in list(c.args) + [k.value for k in c.keywords] for x in ast.walk(a))]
+    chk.ob('FUT-adapters-used', ctf, len(hand) == 1 and last_name(hand[0]) in THREADSAFE, 'create_task hands its coroutine to the loop through a thread-safe call (it is called from the communicator '
+           f'thread): {[last_name(c) for c in hand]}', node=hand[0] if hand else None, kind='threadsafe-hand-over')
     cancellation_delivered(chk, 'FUT-exactly-once', 'futures.unwrap_kiwi_future.unwrap', 'unwrapping', 'unwrapping a kiwipy future')
     cancellation_delivered(chk, 'FUT-exactly-once', 'communications.plum_to_kiwi_future.on_done', 'kiwi_future', 'mirroring a loop future')
     # nested unwrapping: a future resolving to a future is followed, not delivered
